@@ -465,3 +465,45 @@ func appendGuarded(fn *ssa.Function, list ssa.Value, es []edge) bool {
 	})
 	return ok && n > 0
 }
+
+// C07.R3 — pre-allocation uses the size that was actually stored: preAllocateIP runs only after the Pool object
+// was created/updated successfully (a lost create race must not pre-allocate with the loser's size).
+func rulePreallocAfterStore(c *Ctx, rule string) {
+	fn := c.MustFn(rule, "pkg/ipam/api", "(*PoolController).CreateOrUpdate")
+	if fn == nil {
+		return
+	}
+	pre := calls(fn, "(*PoolController).preAllocateIP")
+	stores := calls(fn, "PoolInterface).Create", "PoolInterface).Update")
+	if len(pre) != 1 || len(stores) != 2 {
+		c.undecided(rule, fn, "preAllocateIP / Pools().Create / Update", nil, fmt.Sprintf("expected 1 preAllocateIP and 2 store calls, found %d and %d", len(pre), len(stores)))
+		return
+	}
+	for _, s := range stores {
+		bad, dec := onErrorNever(s, toInstrs(pre))
+		c.ob(rule, fn, "no pre-allocation after a failed "+shortCallee(s)+" of the Pool object", s, dec && bad == nil, "preAllocateIP is unreachable from the err!=nil edge (the size pre-allocated must be the size stored)")
+	}
+	// the size given to preAllocateIP is the request's pool, the same object whose Size was stored
+	get := calls(fn, "PoolInterface).Get")
+	if len(get) == 1 {
+		nf := guardEdges(fn, predCall("errors.IsNotFound", nil))
+		ok, _, why := onErrorReturnsErrExceptVoid(fn, get[0], nf, pre)
+		c.ob(rule, fn, "a failed lookup of the Pool object (other than NotFound) never pre-allocates", get[0], ok, why)
+	}
+}
+
+// onErrorReturnsErrExceptVoid: for handlers without an error result: from the error edge (classifier edges removed)
+// none of ms is reachable.
+func onErrorReturnsErrExceptVoid(fn *ssa.Function, s ssa.CallInstruction, except []edge, ms []ssa.CallInstruction) (bool, bool, string) {
+	ts := errTests(s)
+	if len(ts) == 0 {
+		return false, false, "error not tested"
+	}
+	for _, t := range ts {
+		r := reachFromEdge(t.ErrEdge, newCut().edge(except...))
+		if r.anyCall(ms) != nil {
+			return false, true, "reachable from the error edge"
+		}
+	}
+	return true, true, "unreachable from the err!=nil edge once the NotFound classifier edge is removed"
+}
